@@ -92,9 +92,25 @@
         (not (= (select r (KPricing s p)) bnil))
         (= (dec_Pricing (select r (KPricing s p))) (parsePricing (ServiceBinding_Pricing (bindOf r s p))))
         ; the stored price is exactly one coin of non-negative amount (what ParsePricing produces)
-        (onePriceCoin (dec_Pricing (select r (KPricing s p)))))))
+        (onePriceCoin (dec_Pricing (select r (KPricing s p))))
+        ; the ownership indexes agree with the record (C15): the binding is listed under its owner, the provider is listed
+        ; under that owner, and the provider's owner record names it
+        (not (= (select r (KOwnerBind (ServiceBinding_Owner (bindOf r s p)) s p)) bnil))
+        (not (= (select r (KOwnerProv (ServiceBinding_Owner (bindOf r s p)) p)) bnil))
+        (ownerFound r p) (= (ownerOf r p) (ServiceBinding_Owner (bindOf r s p))))))
+; a provider's owner record names a non-empty owner under which the provider is listed (C15)
+(define-fun ownIdxAt ((r (Array Key Bytes)) (p Bytes)) Bool
+  (=> (ownerFound r p) (and (> (blen (ownerOf r p)) 0) (not (= (select r (KOwnerProv (ownerOf r p) p)) bnil)))))
+; conversely, every entry of the two ownership indexes names an existing binding of that owner / the provider's owner
+(define-fun ownBindAt ((r (Array Key Bytes)) (o Bytes) (s Str) (p Bytes)) Bool
+  (=> (not (= (select r (KOwnerBind o s p)) bnil)) (and (bindFound r s p) (= (ServiceBinding_Owner (bindOf r s p)) o))))
+(define-fun ownProvAt ((r (Array Key Bytes)) (o Bytes) (p Bytes)) Bool
+  (=> (not (= (select r (KOwnerProv o p)) bnil)) (and (ownerFound r p) (= (ownerOf r p) o))))
 (define-fun WF ((r (Array Key Bytes))) Bool
-  (forall ((s Str) (p Bytes)) (! (wfBindAt r s p) :pattern ((select r (KBind s p))))))
+  (and (forall ((s Str) (p Bytes)) (! (wfBindAt r s p) :pattern ((select r (KBind s p)))))
+       (forall ((p Bytes)) (! (ownIdxAt r p) :pattern ((select r (KOwner p)))))
+       (forall ((o Bytes) (s Str) (p Bytes)) (! (ownBindAt r o s p) :pattern ((select r (KOwnerBind o s p)))))
+       (forall ((o Bytes) (p Bytes)) (! (ownProvAt r o p) :pattern ((select r (KOwnerProv o p)))))))
 
 ; ---- step relations of C15: definitions, bindings (with their owner) and provider ownership are for life
 (define-fun defsKept ((o (Array Key Bytes)) (n (Array Key Bytes))) Bool
